@@ -57,7 +57,11 @@ def _new_config(it, args, kwargs):
 def _load_setup(kind):
     def setup(it, args):
         self = args["self"]
-        old = SObj("old_config", fields={"iter_config": SStub(lambda i, a, k: SList([(("k", "a", "b"), "old")]), "iter_config")})
+        def _old_iter(i, a, k):
+            i.run.ghost["merge_resolve"] = k.get("resolve", a[0] if a else False)
+            return SList([(("k", "a", "b"), "old")])
+
+        old = SObj("old_config", fields={"iter_config": SStub(_old_iter, "iter_config")})
         self.fields["_config"] = Union(Const(None), Const(old)).make(it, "self._config")
         self.fields["_parse_ini_stream"] = _failing("_parse_ini_stream", ("ValueError", "KeyError"), lambda i, a, k: SDict({"schemes": fresh_str(i, "ini_value")}))
         self.fields["_parse_config_key"] = _failing("_parse_config_key", ("KeyError", "TypeError"), lambda i, a, k: (None, None, a[0]))
@@ -107,6 +111,8 @@ for _kind in ("dict", "empty", "text", "context", "bad"):
         ensures=[
             ("an empty update returns before any write", lambda it, env: True if it.run.ghost.get("new_config") is not None else _untouched(it, env)),
             ("a successful load installs the new config and its record getters", lambda it, env: True if it.run.ghost.get("new_config") is None else _installed(it, env)),
+            ("update(): the current configuration is merged in RESOLVED form (hasher objects, so that hashers that are not registered by name survive)",
+             lambda it, env: True if "merge_resolve" not in it.run.ghost else it.truth(it.run.ghost["merge_resolve"])),
             ("the dummy-verify cache is reset exactly once per installed config", lambda it, env: (it.bi_calls("_reset_dummy_verify") == (1 if it.run.ghost.get("new_config") is not None else 0))),
         ],
         descr=f"source kind: {_kind}; every fallible step may raise",
@@ -144,3 +150,4 @@ MUTANTS = [
     ("load: harmless reordering of the last two assignments", CTX, "        self._get_record = config.get_record\n        self._identify_record = config.identify_record\n", "        self._identify_record = config.identify_record\n        self._get_record = config.get_record\n", "hold"),
 ]
 MUTANTS += c10_options.MUTANTS
+MUTANTS += [("update(): current config merged by scheme NAME (custom unregistered hashers lost)", CTX, "            source = dict(self._config.iter_config(resolve=True))", "            source = dict(self._config.iter_config())", "refute", r"CryptContext.load\[dict")]
